@@ -98,8 +98,11 @@ func New(maxConcurrent int, chQqueueSize int, v ...interface{}) *TaskPool {
 		}()
 		f()
 	}
+	callerReleases := false
 	if len(v) > 0 {
 		if caller, ok := v[0].(func(f func())); ok {
+			// this caller gives a worker slot back after every call.
+			callerReleases = true
 			tp.caller = func(f func()) {
 				defer atomic.AddInt64(&tp.concurrent, -1)
 				caller(f)
@@ -112,6 +115,10 @@ func New(maxConcurrent int, chQqueueSize int, v ...interface{}) *TaskPool {
 			case f := <-tp.chQqueue:
 				if tp.fork(f) {
 					continue
+				}
+				// fork failed and no goroutine was started, give the slot back.
+				if !callerReleases {
+					atomic.AddInt64(&tp.concurrent, -1)
 				}
 
 				if f != nil {
